@@ -334,7 +334,7 @@ class FnTaint(object):
         tv = self.tainted_vars(e)
         bvars = {}           # tainted variable -> justification
         for (cn, truth) in self.guards_at(at):
-            for (a, why, cls) in self.cond_upper_bounds(cn, truth, depth):
+            for (a, why, cls, _b) in self.cond_upper_bounds(cn, truth, depth):
                 a = A.strip_casts(a)
                 if P_canon(a) == key:
                     return why
@@ -361,11 +361,49 @@ class FnTaint(object):
         self._last_bvars = bvars
         return None
 
+    def bounded_by_remaining(self, expr, at, reader_root):
+        """SAME-READER: `expr` bytes are consumed at reader R's current read pointer, so the bound must be R's *remaining* bytes:
+        a dominating guard whose bound side is (derived from) R.GetNumBytesAvailable(), or a successful checking call on R."""
+        e = A.strip_casts(expr)
+        key = P_canon(e)
+        tv = self.tainted_vars(e)
+
+        def mentions_remaining(b, depth=0):
+            for x in b.walk():
+                if x['k'] == 'CXXMemberCallExpr' and (x.get('q') or '').endswith('::GetNumBytesAvailable'):
+                    r = x.receiver()
+                    if r is not None and A.root_loc(r) == reader_root:
+                        return True
+                if x['k'] == 'DeclRefExpr' and 'd' in x and depth < 3:
+                    d = self.single_def(x)
+                    if d is not None and mentions_remaining(d, depth + 1):
+                        return True
+            return False
+
+        for (cn, truth) in self.guards_at(at):
+            for (a, why, cls, b) in self.cond_upper_bounds(cn, truth, 0):
+                a = A.strip_casts(a)
+                covers = P_canon(a) == key or (self.monotone(a) and tv and tv <= self.tainted_vars(a))
+                if covers and mentions_remaining(b):
+                    return why
+        for n in getattr(self, '_checkcalls', None) or []:
+            pass
+        for (a, why) in self.checked_args(at):
+            a = A.strip_casts(a)
+            if P_canon(a) == key or (self.monotone(a) and tv and tv <= self.tainted_vars(a)):
+                # the checking call must be on the same reader
+                for c in self._checkcalls:
+                    if c.get('l') and ('line %s)' % c.get('l')) in why:
+                        r = c.receiver() if c['k'] == 'CXXMemberCallExpr' else None
+                        if r is not None and A.root_loc(r) == reader_root:
+                            return why
+        return None
+
     def operand_bounds(self, expr, at):
         """for the ARITH rule: {tainted var: (why, class)} of individually bounded operands"""
         bvars = {}
         for (cn, truth) in self.guards_at(at):
-            for (a, why, cls) in self.cond_upper_bounds(cn, truth, 0):
+            for (a, why, cls, _b) in self.cond_upper_bounds(cn, truth, 0):
                 a = A.strip_casts(a)
                 if self.monotone(a):
                     for v in self.tainted_vars(a):
@@ -452,6 +490,21 @@ class FnTaint(object):
                 return False
         return self.non_amplifying(b)
 
+    def amplified_bound(self, b):
+        """bound side adds to / multiplies a non-constant quantity (avail + 4, size * 2): larger than what it names"""
+        b = A.strip_casts(b)
+        if 'v' in b:
+            return False
+        if b['k'] == 'BinaryOperator' and b.get('op') in ('+', '*', '<<'):
+            return True
+        if b['k'] == 'BinaryOperator' and b.get('op') in ('-', '/', '>>', '%', '&'):
+            return self.amplified_bound(b['ch'][0])
+        if b['k'] == 'DeclRefExpr' and 'd' in b:
+            d = self.single_def(b)
+            if d is not None and d is not b:
+                return self.amplified_bound(d)
+        return False
+
     def cond_upper_bounds(self, cn, truth, depth=0):
         """[(bounded expression a, justification, bound class)] that (cn == truth) establishes"""
         out = []
@@ -480,14 +533,16 @@ class FnTaint(object):
                     continue
                 if not self.trusted_bound(b, cn, depth):
                     continue
-                out.append((a, '%s is %s at line %s (bound: %s)' % (n.text(), pol, n.get('l'), b.text()), self.bound_class(b)))
+                if self.amplified_bound(b):
+                    continue       # `n <= avail + k` does not keep n within avail
+                out.append((a, '%s is %s at line %s (bound: %s)' % (n.text(), pol, n.get('l'), b.text()), self.bound_class(b), b))
         elif n['k'] in A.CALL_KINDS:
             q = callee(n)
             args = n.args()
             if re.search(r'::IsSizeOkay$', q) and pol and len(args) >= 2 and self.trusted_bound(args[1], cn, depth):
-                out.append((args[0], '%s is true' % n.text(), 'buffer'))
+                out.append((args[0], '%s is true' % n.text(), 'buffer', args[1]))
             if re.search(r'muscleInRange$', q) and pol and len(args) == 3 and self.trusted_bound(args[2], cn, depth):
-                out.append((args[0], '%s is true' % n.text(), self.bound_class(args[2])))
+                out.append((args[0], '%s is true' % n.text(), self.bound_class(args[2]), args[2]))
         return out
 
     def checked_args(self, at):
